@@ -267,6 +267,9 @@ class Verifier(Exec):
         con = self.cur_stack[-1]
         tag = "%s:loop%d" % (con.name, idx)
         ctx = SpecCtx(self.entry_stack[-1], st)
+        # instances of proved lemmas / conservative definitions about locals hold here too
+        for li, txt in enumerate(con.ghost.get("loop_lemmas") or []):
+            st.assume(self.spec(txt, ctx, state=st), tag="lemma:%s" % txt.split("(")[0])
         # 1. invariant holds on entry
         for nm, txt in spec["inv"].items():
             self.oblige(st, "%s:init:%s" % (tag, nm), self.spec(txt, ctx, state=st))
@@ -287,7 +290,10 @@ class Verifier(Exec):
             h.alloc = h.alloc + k
         hctx = SpecCtx(self.entry_stack[-1], h)
         for nm, txt in spec["inv"].items():
-            h.assume(self.spec(txt, hctx, state=h))
+            h.assume(self.spec(txt, hctx, state=h), tag="inv:" + nm)
+        # instances of proved lemmas / conservative definitions about locals
+        for txt in (con.ghost.get("loop_lemmas") or []):
+            h.assume(self.spec(txt, hctx, state=h), tag="lemma:%s" % txt.split("(")[0])
         dec0 = None
         if spec.get("dec"):
             dec0 = self.sp(self.spec_expr(spec["dec"]), h, dict(h.env), hctx).z
@@ -300,6 +306,9 @@ class Verifier(Exec):
                 res.extend(self.block(node.orelse, s) if node.orelse else [(s, None)])
                 continue
             s.trace.append("loop%d body" % idx)
+            # vacuity guard: the assumptions at the head of an arbitrary iteration
+            # (invariant + lemma instances + guard) must not be contradictory
+            self.oblige(s, "%s:cover-false" % tag, z3.BoolVal(False))
             outs = []
             for s1, o in pre_body(s):
                 if o is not None:
@@ -312,9 +321,14 @@ class Verifier(Exec):
                     post_step = getattr(node, "_step", None)
                     if post_step is not None:
                         post_step(s1)
+                    acc = s1.copy() if spec.get("chain") else s1
                     for nm, txt in spec["inv"].items():
-                        self.oblige(s1, "%s:preserve:%s" % (tag, nm),
-                                    self.spec(txt, c1, state=s1))
+                        g_ = self.spec(txt, c1, state=s1)
+                        self.oblige(acc, "%s:preserve:%s" % (tag, nm), g_)
+                        if spec.get("chain"):
+                            # clauses are proved in order; an earlier clause of the NEW state may
+                            # be used for a later one (conjunction introduction)
+                            acc.assume(g_, tag="new:" + nm)
                     if dec0 is not None:
                         d1 = self.sp(self.spec_expr(spec["dec"]), s1, dict(s1.env), c1).z
                         self.oblige(s1, "%s:decreases" % tag,
@@ -348,6 +362,10 @@ class Verifier(Exec):
                 arr = h.heap["$" + l.x]
                 h.heap["$" + l.x] = z3.Store(arr, l.z, z3.If(isf, fresh("hv", z3.ArraySort(INT, ELEM_SORT[l.x])),
                                                              z3.Select(arr, l.z)))
+                if l.x == "K":
+                    self.hget(h, "$elems", l.z)
+                    e = h.heap["$elems"]
+                    h.heap["$elems"] = z3.Store(e, l.z, z3.If(isf, fresh("hvelems", field_sort("$elems")), z3.Select(e, l.z)))
                 return
             nl = fresh("hvlen", INT)
             h.assume(nl >= 0)
@@ -358,6 +376,10 @@ class Verifier(Exec):
             self.larr(h, l.x)
             h.heap["$" + l.x] = z3.Store(h.heap["$" + l.x], l.z,
                                          fresh("hv", z3.ArraySort(INT, ELEM_SORT[l.x])))
+            if l.x == "K":
+                # the ghost key set of the list changes with it
+                self.hget(h, "$elems", l.z)
+                h.heap["$elems"] = z3.Store(h.heap["$elems"], l.z, fresh("hvelems", field_sort("$elems")))
         else:
             objtxt, fld = m.rsplit(".", 1)
             o = self.sp(self.spec_expr(objtxt), h, env, ctx)
@@ -365,8 +387,35 @@ class Verifier(Exec):
             self.hget(h, fs, o.z)
             h.heap[fs] = z3.Store(h.heap[fs], o.z, fresh("hv", field_sort(fs)))
 
+    PURE_NODES = (ast.BoolOp, ast.And, ast.Or, ast.UnaryOp, ast.Not, ast.Name, ast.Attribute, ast.Load,
+                  ast.Compare, ast.Is, ast.IsNot, ast.Eq, ast.NotEq, ast.Lt, ast.LtE, ast.Gt, ast.GtE, ast.Constant)
+
+    def pure_guard(self, test, s):
+        """A loop guard made of names, attribute reads, and/or/not and
+        identity/integer comparisons has no side effects and cannot raise:
+        it is evaluated to ONE formula, so that the loop has one exit state
+        instead of one per short-circuit alternative."""
+        if not all(isinstance(x, self.PURE_NODES) for x in ast.walk(test)):
+            return None
+        for x in ast.walk(test):
+            if isinstance(x, ast.Compare):
+                return None if any(not isinstance(o, (ast.Is, ast.IsNot)) for o in x.ops) else None
+        try:
+            v = self.sp(test, s, dict(s.env), None)
+        except Exception:
+            return None
+        if v.kind == "ref" and v.x not in (None, "_SetIteration", "_TreeItem"):
+            return None          # truthiness of containers is handled by cond()
+        try:
+            return self.as_bool(s, v)
+        except Unsupported:
+            return None
+
     def st_While(self, node, st):
         def guard(s):
+            g = self.pure_guard(node.test, s) if self.cur_stack[-1].ghost.get("single_exit") else None
+            if g is not None:
+                return self.fork(s, g, "while_L%d" % node.lineno)
             return self.cond(node.test, s)
         return self.run_loop(node, st, guard, lambda s: [(s, None)])
 
@@ -500,7 +549,7 @@ class Verifier(Exec):
                     z3.And(z3.Select(a, o) >= lo, z3.Select(a, o) < st0_alloc))))
         return ax
 
-    def verify_function(self, con, cover_only=False):
+    def verify_function(self, con, cover_only=False, cases=None):
         """Generate all obligations of one function under contract."""
         self.cur = con
         self.compare_error_paths = 0
@@ -530,7 +579,9 @@ class Verifier(Exec):
                 raise Unsupported("%s: parameter %s has no declared kind" % (con.name, nm))
             alts.append(spec if isinstance(spec, list) else [spec])
         ncases = 0
-        for combo in itertools.product(*alts):
+        for ci, combo in enumerate(itertools.product(*alts)):
+            if cases is not None and ci not in cases:
+                continue
             kinds = dict(zip(pnames, combo))
             st = self.initial_state(con, fdef, kinds)
             case = ",".join("%s=%s" % (n, c if isinstance(c, str) else "tuple")
@@ -538,7 +589,7 @@ class Verifier(Exec):
             pre = st.copy()
             ctx0 = SpecCtx(pre, pre)
             for nm, txt in con.requires.items():
-                st.assume(self.spec(txt, ctx0, state=st))
+                st.assume(self.spec(txt, ctx0, state=st), tag="req:" + nm)
             pre.pc = list(st.pc)
             pre.heap = dict(st.heap)
             self.cur_stack = [con]
@@ -549,7 +600,7 @@ class Verifier(Exec):
             from .engine import _has_quant
             for nm, txt in con.ghost.get("lemma_instances", {}).items():
                 f = self.spec(txt, ctx0, state=st)
-                st.assume(f)
+                st.assume(f, tag="lemmainst:" + nm)
                 if not _has_quant(f):       # grounded definitions take part in the cover query;
                     cover_pc.append(f)      # quantified instances of PROVED lemmas cannot make it vacuous
             # cover: the precondition (with the assumed definitions) is satisfiable
@@ -571,9 +622,9 @@ class Verifier(Exec):
         if o[0] == "return":
             wit = {}
             for wn, wtxt in con.ghost.get("witness", {}).items():
-                lenv = dict(s.env)
-                lenv["result"] = o[1]
-                wit[wn] = self.sp(self.spec_expr(wtxt), s, lenv, ctx)
+                lenv = dict(s.env)             # the function's locals at `return` (a local
+                lenv["returned"] = o[1]        # named `result` stays visible; the value
+                wit[wn] = self.sp(self.spec_expr(wtxt), s, lenv, ctx)   # returned is `returned`)
             s.env = dict(pre.env)
             s.env.update(wit)
             s.env["result"] = o[1]
